@@ -27,8 +27,20 @@ PROBES = ['PRINT A;B;C;X;Y;Z1;I%;J%;K%;D#;E#;V!;W2;"<";S$;T$;U$;N1$;">"', "PRINT
           "PRINT FNA(1)", "READ Q9:PRINT Q9", "PRINT ZQ(11)", "Q4=1:PRINT Q4/2", 'Q3$="a":PRINT Q3$']
 
 
-def final_run(prog, inputs):
-    return [sess.E('PRINT "%s"' % MARK), "R5000", sess.E("RUN"), "R5000"] + ["A5000:" + sess.hx(r) for r in inputs]
+def final_run(prog, inputs, final="RUN"):
+    return [sess.E('PRINT "%s"' % MARK), "R5000", sess.E(final), "R5000"] + ["A5000:" + sess.hx(r) for r in inputs]
+
+
+# programs whose earlier run (or a direct statement) leaves FOR / GOSUB frames behind without ending in END, STOP or an error,
+# and entry points that would use such a frame if it survived
+FRAME_PROGS = [
+    (["10 GOSUB 60", '20 PRINT "BACK"', "30 END", "50 RETURN", '60 PRINT "SUB"'], ["RUN 50", "RUN 20", "RUN", "CLEAR:RETURN", "CLEAR:GOTO 50"]),
+    (["10 FOR I=1 TO 2", '20 PRINT "LOOP";I', "30 GOTO 60", "50 NEXT", "60 REM DONE"], ["RUN 50", "RUN 20", "RUN", "CLEAR:NEXT", "CLEAR:GOTO 50"]),
+    (["10 GOSUB 40", "20 END", "30 NEXT J:RETURN", "40 FOR J=1 TO 3", '50 PRINT "J";J'], ["RUN 30", "RUN"]),
+    (["10 DEF FNA(X)=X+1", "20 GOSUB 50", '30 PRINT "B"', "40 END", '50 PRINT FNA(1)'], ["RUN 40", "RUN 30", "CLEAR:RETURN", "CLEAR:PRINT FNA(1)"]),
+]
+FRAME_PREFIXES = [["RUN"], ["RUN", "PRINT 1+1"], ["GOSUB 60"], ["GOSUB 50"], ["FOR K=1 TO 3"], ["RUN", "RUN"], ["GOTO 10"], ["RUN 20"],
+                  ["FOR I=1 TO 3:FOR J=1 TO 2"], ["RUN", "Q=5"]]
 
 
 def gen(tier, rng):
@@ -79,6 +91,21 @@ def gen(tier, rng):
         pre = variants[1][1] + [sess.E("CLEAR"), "R5000"]
         cases.append(Case(sess.session(["R5000"] + pre + [sess.E('PRINT "%s"' % MARK), "R5000"] + probes),
                           sig=key + "\n#probes after CLEAR", tag="probe-clear", meta=("probe-clear", pi, None)))
+    # abandoned frames: RUN n / CLEAR must not find what an earlier run or direct statement left on the stack
+    pi = n
+    for prog, finals in FRAME_PROGS:
+        typeit = [sess.E(l) for l in prog]
+        key = "\n".join(prog)
+        for final in finals:
+            cases.append(Case(sess.session(["R5000"] + typeit + final_run(prog, [], final)), sig=key + "\n#then " + final, tag="fresh",
+                              meta=("fresh", pi, None)))
+            for pre in FRAME_PREFIXES:
+                calls = ["R5000"] + typeit
+                for d in pre:
+                    calls += [sess.E(d), "R5000"]
+                cases.append(Case(sess.session(calls + final_run(prog, [], final)), sig=key + "\n#prefix " + "; ".join(pre) + "\n#then " + final,
+                                  tag="prefix-frames", meta=("hist", pi, "frames")))
+            pi += 1
     # NEW leaves an empty listing
     for pi in range(20):
         prog, inputs = gen_prog.generate(rng, features={"tron": False, "input": False})
